@@ -793,14 +793,16 @@ func why(o obs) string {
 }
 
 func Run(c *core.Ctx) {
-	c.Rule = "cases = (request, handler configuration, component outcome, transport): request = method (GET, HEAD, POST, PUT, PATCH, DELETE, OPTIONS, extension methods) x protocol version (HTTP/1.1 by net/http's client, HTTP/1.0 on a raw connection, HTTP/2 over TLS) x state of r.Context() (live, deadline ahead, already cancelled, deadline exceeded) x query string x header fields (Accept, Range, If-None-Match, Connection, ...) x body - 143 structured requests in full product with a set of configurations and outcomes, cycled through every other sweep, and random ones; configuration = status unset/set x content type default/set/empty x error handler unset/silent/writing headers, status, body x streaming off/on; outcome = k chunks (k = 0..8 and 40, sizes 0, 1, around 4096, around 65536, 200000) then success or failure with one of 32 kinds of error value (plain, context.Canceled/DeadlineExceeded bare, wrapped, from a sub-context, inside templ.Error or errors.Join, io/net/syscall/http sentinels, typed nil, Is()-everything ...), and context-aware components that return ctx.Err() without writing when the request's context is done; each served by the real templ.Handler into an httptest.ResponseRecorder and over a real httptest.Server round trip. distinct non-trivial = distinct (request, configuration, chunk sizes, fails, context-aware, transport) in which the component fails or writes at least 4095 bytes"
+	c.Rule = "cases = (request, handler configuration, component outcome, transport): request = method (GET, HEAD, POST, PUT, PATCH, DELETE, OPTIONS, extension methods) x protocol version (HTTP/1.1 by net/http's client, HTTP/1.0 on a raw connection, HTTP/2 over TLS) x state of r.Context() (live, deadline ahead, already cancelled, deadline exceeded) x query string x header fields (Accept, Range, If-None-Match, Connection, ...) x body - 143 structured requests in full product with a set of configurations and outcomes, cycled through every other sweep, and random ones; configuration = status unset/set x content type default/set/empty x error handler unset/silent/writing headers, status, body x streaming off/on; outcome = k chunks (k = 0..8 and 40, sizes 0, 1, around 4096, around 65536, 200000) then success or failure with one of 32 kinds of error value (plain, context.Canceled/DeadlineExceeded bare, wrapped, from a sub-context, inside templ.Error or errors.Join, io/net/syscall/http sentinels, typed nil, Is()-everything ...), and context-aware components that return ctx.Err() without writing when the request's context is done; each served by the real templ.Handler into an httptest.ResponseRecorder and over a real httptest.Server round trip; and the component as a dimension of its own (combos.go): compositions of templ's own combinators - ComponentFunc, Raw, Join, Flush with children (in generated code, by hand inside a template, on a plain writer), OnceHandle.Once with children and WithComponent, templates regenerated from pages.templ by the tree's generator and compiled (holes, nesting, children blocks, loops, expressions), writers that fail after n bytes - 26 shapes with a failing component injected at every hole (before and after it writes, small and around the 4 KB buffer), a failing expression at every position, a failing writer around the whole and around every hole at every boundary, the request's context done, and random compositions; each rendered directly (Render contract) and served buffered (recorder and server; GET, HEAD, POST; status x error handler). distinct non-trivial = distinct (request, configuration, chunk sizes, fails, context-aware, transport) in which the component fails or writes at least 4095 bytes, and distinct (composition, configuration, request, transport) in which the composition fails"
 	c.Trusted = append(c.Trusted,
 		"specification spec/HandlerSpec.v (all_or_nothing over status, header map, body)",
+		"specification spec/CompSpec.v (which document a composition of templ's combinators renders to, and when a failure point is reached); the expansion of the templates of harness/internal/c11/pages.templ into those combinators (combos.go: expand)",
 		"extraction: ExtrOcamlBasic only; ocaml/driver.ml (hex line protocol); request decoding in coq/extract/X11.v",
 		"net/http server and client, httptest.ResponseRecorder (their ResponseWriter behaviour is modelled in model/Handler.v and compared on every run)",
 		"Go harness internal/c11 and the Go toolchain")
 	c.Assume = append(c.Assume,
 		"a component is described by what the handler can see of it: given the state of the context it is rendered with, the chunks it writes to its io.Writer and whether Render then returns an error (theorems: any function of the context state; correspondence: components that ignore the context and components that return ctx.Err() first; panics, writes after returning, a context cancelled during rendering are out of scope)",
+		"compositions: the combinators modelled are ComponentFunc, Raw, Join, Flush, OnceHandle.Once, generated templates (ctx.Err() check, runtime.Buffer, InitializeContext, children blocks) and a writer failing after n bytes; the streamed handler is not driven with compositions (what reaches its ResponseWriter depends on the individual writes and flushes); attributes, scripts, CSS components and templ.Handler nested as a component are not part of the compositions",
 		"an error handler is described by the ResponseWriter calls it makes given the request (theorems: any function of the request and the writer state); correspondence covers Header().Set/Del, WriteHeader, Write, http.Error and echoing method, query string and protocol version of the request into a header",
 		"the request is a record of method, protocol version, target, header fields, body and context state; what a client receives is the response given to the ResponseWriter, without its body in reply to HEAD (client_view); request bodies are not sent on connections the server closes after the reply (HTTP/1.0, Connection: close), where net/http resets the connection over an unread body",
 		"ResponseWriter model: final status codes 200..999 other than 204/304, Content-Type present at the first write (templ always sets it; an error handler deleting it would make net/http sniff a type), no write errors (handler.go ignores them)",
@@ -1049,6 +1051,7 @@ func Run(c *core.Ctx) {
 	c.Extra["streamed_failing_responses_not_all_or_nothing"] = streamedPartial
 	c.Extra["error_handler_alone_responses"] = len(ehCache)
 
+	compositions(c)
 	contrast(c, srv)
 	rwContract(c, srv)
 	overlapping(c)
